@@ -91,6 +91,15 @@ func h4(beh string, tag byte) handler.Handler4 {
 		case "stop":
 			add(resp, trailOf4(resp))
 			return resp, true
+		case "replacestop":
+			n, _ := dhcpv4.New()
+			n.OpCode = dhcpv4.OpcodeBootReply
+			n.TransactionID = req.TransactionID
+			n.ClientHWAddr = req.ClientHWAddr
+			n.Flags = 0x8000
+			n.UpdateOption(dhcpv4.OptMessageType(resp.MessageType()))
+			add(n, trailOf4(resp))
+			return n, true
 		case "stopnil":
 			return nil, true
 		}
@@ -130,6 +139,12 @@ func h6(beh string, tag byte) handler.Handler6 {
 		case "stop":
 			add(resp, trailOf6(resp))
 			return resp, true
+		case "replacestop":
+			old := resp.(*dhcpv6.Message)
+			n := &dhcpv6.Message{MessageType: old.MessageType, TransactionID: old.TransactionID}
+			n.AddOption(old.GetOneOption(dhcpv6.OptionClientID))
+			add(n, trailOf6(resp))
+			return n, true
 		case "stopnil":
 			return nil, true
 		}
@@ -277,7 +292,7 @@ func eval(r *ev.Run, c Case) {
 		switch it.Beh {
 		case "modify", "replace":
 			expTrail = append(expTrail, wantTags[i])
-		case "stop":
+		case "stop", "replacestop":
 			expTrail = append(expTrail, wantTags[i])
 			stop = true
 		case "stopnil":
@@ -338,14 +353,14 @@ func eval(r *ev.Run, c Case) {
 	class += fmt.Sprintf("/calls=%d/sent=%v", len(gotCalls), sent)
 }
 
-var behs = []string{"pass", "modify", "replace", "stop", "stopnil"}
+var behs = []string{"pass", "modify", "replace", "stop", "replacestop", "stopnil"}
 
 func run(r *ev.Run) {
 	maxLen := 4
 	if !r.Quick() {
 		maxLen = 5
 	}
-	r.Rule(fmt.Sprintf("E3: all chains of length 0..%d over 5 handler behaviours {pass,modify,replace,stop,stop-with-nil} x protocol {4,6}, built through plugins.LoadPlugins and run through HandleMsg4/6; the same chains up to length %d loaded from generated YAML through config.Load; all placements of v4-only/v6-only/dual/unknown/failing-setup plugins in chains of length <=3. Reference interpreter from the property text. Class = proto/len/yaml/#calls/sent.", maxLen, map[bool]int{true: 2, false: 5}[r.Quick()]))
+	r.Rule(fmt.Sprintf("E3: all chains of length 0..%d over 6 handler behaviours {pass,modify,replace,stop,replace+stop,stop-with-nil} x protocol {4,6}, built through plugins.LoadPlugins and run through HandleMsg4/6; the same chains up to length %d loaded from generated YAML through config.Load; all placements of v4-only/v6-only/dual/unknown/failing-setup plugins in chains of length <=3. Reference interpreter from the property text. Class = proto/len/yaml/#calls/sent.", maxLen, map[bool]int{true: 2, false: 5}[r.Quick()]))
 	r.Assume("server.Start's sharing of one handler slice between listeners is not executed (needs privileged sockets)")
 	var rec func(prefix []Item, n int, f func([]Item))
 	rec = func(prefix []Item, n int, f func([]Item)) {
